@@ -487,7 +487,11 @@ func (t *tOps) remove(fd storage.FileDesc) {
 		if t.evictRemoved && t.blockCache != nil {
 			t.blockCache.EvictNS(uint64(fd.Num))
 		}
-		// Try to reuse file num, useful for discarded transaction.
+		// Try to reuse file num, useful for discarded transaction. Cached
+		// blocks are keyed by file num, so they must not outlive the num.
+		if !t.evictRemoved && t.blockCache != nil && t.s.nextFileNum() == fd.Num+1 {
+			t.blockCache.EvictNS(uint64(fd.Num))
+		}
 		t.s.reuseFileNum(fd.Num)
 	})
 }
